@@ -94,6 +94,21 @@ func (x *Exec) libStatic(st *State, f *Frame, callee *ssa.Function, c *ssa.CallC
 		st.assume(Implies(And(nosep, Not(Eq(sc(1), StrLit("")))), And(Eq(n, IntLit(1)), Eq(e0, sc(0)))))
 		st.assume(Implies(Not(nosep), Cmp(">=", n, IntLit(2))))
 		return res, true
+	case "strings.SplitN":
+		if n, ok := isIntLit(sc(2)); ok && n == 2 {
+			x.noteLib("strings.SplitN(s, sep, 2): [s] when sep does not occur, else [a, b] with s == a + sep + b and sep not in a")
+			r := st.newRef("splitn")
+			ln := reg.freshConst("splitn_n", SInt)
+			strT := types.Typ[types.String]
+			a := st.loadAt(ElemAddr{r, IntLit(0), strT}, strT).(Sc).T
+			b := st.loadAt(ElemAddr{r, IntLit(1), strT}, strT).(Sc).T
+			has := App(SBool, "str.contains", sc(0), sc(1))
+			st.assume(Implies(Not(Eq(sc(1), StrLit(""))), And(
+				Implies(has, And(Eq(ln, IntLit(2)), Eq(sc(0), strConcat(strConcat(a, sc(1)), b)), Not(App(SBool, "str.contains", a, sc(1))))),
+				Implies(Not(has), And(Eq(ln, IntLit(1)), Eq(a, sc(0)))))))
+			st.assume(And(Cmp(">=", ln, IntLit(1)), Cmp("<=", ln, IntLit(2))))
+			return SliceV{r, IntLit(0), ln, strT}, true
+		}
 	case "strings.Join":
 		sv := args[0].(SliceV)
 		x.noteLib("strings.Join: uninterpreted function of (elements, offset, length, separator); join of 0 elements is \"\", of 1 element is that element")
